@@ -981,9 +981,12 @@ class Resolver:
             try:
                 shutil.unpack_archive(path, self.subdir_root)
             except Exception:
-                with tempfile.TemporaryDirectory() as workdir:
-                    shutil.unpack_archive(path, workdir)
-                    self.copy_tree(workdir, self.subdir_root)
+                try:
+                    with tempfile.TemporaryDirectory() as workdir:
+                        shutil.unpack_archive(path, workdir)
+                        self.copy_tree(workdir, self.subdir_root)
+                except Exception as e:
+                    raise WrapException(f'failed to unpack patch archive with error: {str(e)}') from e
         elif 'patch_directory' in self.wrap.values:
             patch_dir = self.wrap.values['patch_directory']
             src_dir = os.path.join(self.wrap.filesdir, patch_dir)
